@@ -1482,4 +1482,228 @@ example : wfLangsys [("DFLT", "dflt"), ("latn", "dflt"), ("latn", "TRK")] = true
 example : (registrations true [("Latn", [])] [] [("Latn", { dir := "LTR", dist := false, tags := ["latn"] })]).any
     (fun r => r.2.1.isEmpty) = true := by decide
 
+/-! ### designspace rules -> extraSubstitutions -> script classification -/
+
+theorem extraGet_cons (l0 : String) (rs : List String) (t : SubMap) (l' : String) :
+    extraGet ((l0, rs) :: t) l' = if l0 == l' then rs else extraGet t l' := by
+  unfold extraGet
+  show ((if l0 == l' then some rs else alookup l' t).getD []) = _
+  split <;> rfl
+
+theorem extraGet_subAdd (m : SubMap) (l r l' x : String) :
+    x ∈ extraGet (subAdd m l r) l' ↔ x ∈ extraGet m l' ∨ (l' = l ∧ x = r) := by
+  induction m with
+  | nil =>
+    simp only [subAdd, extraGet_cons]
+    by_cases h : l = l'
+    · subst h; simp [extraGet, alookup]
+    · have hb : (l == l') = false := by simpa using h
+      simp only [hb]
+      constructor
+      · intro hx; exact Or.inl hx
+      · rintro (hx | ⟨h1, _⟩)
+        · exact hx
+        · exact absurd h1.symm h
+  | cons e t ih =>
+    obtain ⟨l0, rs⟩ := e
+    simp only [subAdd]
+    by_cases h0 : l0 = l
+    · subst h0
+      simp only [beq_self_eq_true, if_true, extraGet_cons]
+      by_cases h1 : l0 = l'
+      · subst h1
+        simp only [beq_self_eq_true, if_true]
+        by_cases hc : rs.contains r = true
+        · simp only [hc, if_true]
+          constructor
+          · intro hx; exact Or.inl hx
+          · rintro (hx | ⟨_, hx⟩)
+            · exact hx
+            · subst hx; simpa using hc
+        · simp only [hc]
+          simp [mem_append]
+      · have hb : (l0 == l') = false := by simpa using h1
+        simp only [hb]
+        constructor
+        · intro hx; exact Or.inl hx
+        · rintro (hx | ⟨h2, _⟩)
+          · exact hx
+          · exact absurd h2.symm h1
+    · have hb : (l0 == l) = false := by simpa using h0
+      simp only [hb, Bool.false_eq_true, if_false, extraGet_cons]
+      by_cases h1 : l0 = l'
+      · subst h1
+        simp only [beq_self_eq_true, if_true]
+        constructor
+        · intro hx; exact Or.inl hx
+        · rintro (hx | ⟨h2, _⟩)
+          · exact hx
+          · exact absurd h2 h0
+      · have hb' : (l0 == l') = false := by simpa using h1
+        simp only [hb', Bool.false_eq_true, if_false]
+        exact ih
+
+theorem extraGet_ruleFold (rule : Rule) (acc : SubMap) (l x : String) :
+    x ∈ extraGet (rule.foldl (fun a s => subAdd a s.1 s.2) acc) l ↔ x ∈ extraGet acc l ∨ (l, x) ∈ rule := by
+  induction rule generalizing acc with
+  | nil => simp
+  | cons s r ih =>
+    simp only [foldl_cons, ih, extraGet_subAdd, mem_cons]
+    obtain ⟨a, b⟩ := s
+    simp only [Prod.mk.injEq]
+    constructor
+    · rintro ((h | h) | h)
+      · exact Or.inl h
+      · exact Or.inr (Or.inl h)
+      · exact Or.inr (Or.inr h)
+    · rintro (h | h | h)
+      · exact Or.inl (Or.inl h)
+      · exact Or.inl (Or.inr h)
+      · exact Or.inr h
+
+theorem extraGet_rulesFold (rules : List Rule) (acc : SubMap) (l x : String) :
+    x ∈ extraGet (rules.foldl (fun acc rule => rule.foldl (fun a s => subAdd a s.1 s.2) acc) acc) l ↔
+      x ∈ extraGet acc l ∨ ∃ rule ∈ rules, (l, x) ∈ rule := by
+  induction rules generalizing acc with
+  | nil => simp
+  | cons r rs ih =>
+    simp only [foldl_cons, ih, extraGet_ruleFold, mem_cons, exists_eq_or_imp, or_assoc]
+
+/-- **the mapping handed to the feature writers is exactly the union of the rules**: `x` is among the glyphs
+`extraSubstitutions[l]` iff some designspace rule replaces `l` by `x` (all rules, not only the last one). -/
+theorem C20_ds_extra_complete (rules : List Rule) (l x : String) :
+    x ∈ extraGet (extraSubs rules) l ↔ ∃ rule ∈ rules, (l, x) ∈ rule := by
+  unfold extraSubs
+  rw [extraGet_rulesFold]
+  simp [extraGet, alookup]
+
+/-- every stored entry is justified by a rule (no entry is invented): by induction over the construction -/
+theorem subAdd_entries (m : SubMap) (l r : String) (P : String → String → Prop)
+    (hm : ∀ e ∈ m, ∀ x ∈ e.2, P e.1 x) (hp : P l r) : ∀ e ∈ subAdd m l r, ∀ x ∈ e.2, P e.1 x := by
+  induction m with
+  | nil =>
+    intro e he x hx
+    simp only [subAdd, mem_singleton] at he
+    subst he
+    simp only [mem_singleton] at hx
+    subst hx; exact hp
+  | cons e0 t ih =>
+    obtain ⟨l0, rs⟩ := e0
+    intro e he x hx
+    simp only [subAdd] at he
+    by_cases h0 : l0 = l
+    · subst h0
+      simp only [beq_self_eq_true, if_true, mem_cons] at he
+      rcases he with he | he
+      · subst he
+        by_cases hc : rs.contains r = true
+        · simp only [hc, if_true] at hx
+          exact hm (l0, rs) mem_cons_self x hx
+        · simp only [hc] at hx
+          rcases mem_append.mp hx with hx | hx
+          · exact hm (l0, rs) mem_cons_self x hx
+          · simp only [mem_singleton] at hx
+            subst hx; exact hp
+      · exact hm e (mem_cons_of_mem _ he) x hx
+    · have hb : (l0 == l) = false := by simpa using h0
+      simp only [hb, Bool.false_eq_true, if_false, mem_cons] at he
+      rcases he with he | he
+      · subst he; exact hm (l0, rs) mem_cons_self x hx
+      · exact ih (fun e he => hm e (mem_cons_of_mem _ he)) e he x hx
+
+theorem extraSubs_entries (rules : List Rule) :
+    ∀ e ∈ extraSubs rules, ∀ x ∈ e.2, ∃ rule ∈ rules, (e.1, x) ∈ rule := by
+  unfold extraSubs
+  suffices h : ∀ (rs : List Rule) (acc : SubMap) (P : String → String → Prop),
+      (∀ e ∈ acc, ∀ x ∈ e.2, P e.1 x) → (∀ rule ∈ rs, ∀ s ∈ rule, P s.1 s.2) →
+      ∀ e ∈ rs.foldl (fun acc rule => rule.foldl (fun a s => subAdd a s.1 s.2) acc) acc, ∀ x ∈ e.2, P e.1 x by
+    exact h rules [] (fun l x => ∃ rule ∈ rules, (l, x) ∈ rule) (by simp)
+      (fun rule hr s hs => ⟨rule, hr, hs⟩)
+  intro rs
+  induction rs with
+  | nil => intro acc P ha _; simpa using ha
+  | cons r rs ih =>
+    intro acc P ha hr
+    simp only [foldl_cons]
+    apply ih
+    · have : ∀ (rule : Rule) (acc : SubMap), (∀ e ∈ acc, ∀ x ∈ e.2, P e.1 x) → (∀ s ∈ rule, P s.1 s.2) →
+          ∀ e ∈ rule.foldl (fun a s => subAdd a s.1 s.2) acc, ∀ x ∈ e.2, P e.1 x := by
+        intro rule
+        induction rule with
+        | nil => intro acc ha _; simpa using ha
+        | cons s t iht =>
+          intro acc ha hs
+          simp only [foldl_cons]
+          exact iht _ (subAdd_entries acc s.1 s.2 P ha (hs s mem_cons_self)) (fun s' h' => hs s' (mem_cons_of_mem _ h'))
+      exact this r acc ha (hr r mem_cons_self)
+    · exact fun rule h => hr rule (mem_cons_of_mem _ h)
+
+/-- the model of `_pre_compile_designspace` satisfies the declarative requirement, for every list of rules -/
+theorem C20_ds_extra (rules : List Rule) : holdsExtra rules (extraSubs rules) = true := by
+  unfold holdsExtra
+  simp only [Bool.and_eq_true, all_eq_true, any_eq_true, contains_iff_mem]
+  constructor
+  · intro rule hr s hs
+    exact (C20_ds_extra_complete rules s.1 s.2).mpr ⟨rule, hr, hs⟩
+  · intro e he x hx
+    exact extraSubs_entries rules e he x hx
+
+theorem mem_classifyExtra (m : SubMap) (sets : List (Tag × List String)) (s : Tag) (glyphs : List String)
+    (h : (s, glyphs) ∈ sets) : ∃ glyphs', (s, glyphs') ∈ classifyExtra m sets ∧
+      (∀ x, x ∈ glyphs' ↔ x ∈ glyphs ∨ ∃ g ∈ glyphs, x ∈ extraGet m g) := by
+  refine ⟨_, mem_map.mpr ⟨(s, glyphs), h, rfl⟩, ?_⟩
+  intro x
+  simp only [mem_append, mem_filter, mem_eraseDups, mem_flatMap]
+  constructor
+  · rintro (hx | ⟨hx, _⟩)
+    · exact Or.inl hx
+    · exact Or.inr hx
+  · rintro (hx | hx)
+    · exact Or.inl hx
+    · by_cases hm : x ∈ glyphs
+      · exact Or.inl hm
+      · exact Or.inr ⟨hx, by simpa using hm⟩
+
+/-- **a rule alternate inherits the script of the glyph it replaces, whatever rule it comes from**: if some rule
+replaces `g` by `alt` and `g` is classified under script `s`, then after `classifyGlyphs` with the compiler's
+`extraSubstitutions` the set of `s` contains `alt` (and everything it contained before). -/
+theorem C20_ds_alternate_inherits (rules : List Rule) (sets : List (Tag × List String)) (s : Tag)
+    (glyphs : List String) (hs : (s, glyphs) ∈ sets) (g alt : String) (hg : g ∈ glyphs)
+    (rule : Rule) (hr : rule ∈ rules) (hsub : (g, alt) ∈ rule) :
+    ∃ glyphs', (s, glyphs') ∈ classifyExtra (extraSubs rules) sets ∧ alt ∈ glyphs' ∧ ∀ x ∈ glyphs, x ∈ glyphs' := by
+  obtain ⟨glyphs', hmem, hiff⟩ := mem_classifyExtra (extraSubs rules) sets s glyphs hs
+  refine ⟨glyphs', hmem, ?_, fun x hx => (hiff x).mpr (Or.inl hx)⟩
+  exact (hiff alt).mpr (Or.inr ⟨g, hg, (C20_ds_extra_complete rules g alt).mpr ⟨rule, hr, hsub⟩⟩)
+
+/-- the classification step satisfies its declarative requirement -/
+theorem C20_ds_classify (m : SubMap) (sets : List (Tag × List String)) :
+    holdsClassify m sets (classifyExtra m sets) = true := by
+  unfold holdsClassify
+  simp only [all_eq_true, any_eq_true, Bool.and_eq_true, contains_iff_mem, beq_iff_eq]
+  intro sg hsg
+  obtain ⟨glyphs', hmem, hiff⟩ := mem_classifyExtra m sets sg.1 sg.2 hsg
+  exact ⟨_, hmem, ⟨rfl, fun x hx => (hiff x).mpr (Or.inl hx)⟩,
+    fun g hg x hx => (hiff x).mpr (Or.inr ⟨g, hg, hx⟩)⟩
+
+/-- the seeded-defect shape, as a counterexample of the requirement: keeping only the LAST rule's replacement
+of a glyph violates `holdsExtra`. -/
+example : holdsExtra [[("alpha", "alpha.bold")], [("alpha", "alpha.cond")]] [("alpha", ["alpha.cond"])] = false := by decide
+
+example : extraSubs [[("alpha", "alpha.bold"), ("beta", "beta.bold")], [("alpha", "alpha.cond")]] =
+    [("alpha", ["alpha.bold", "alpha.cond"]), ("beta", ["beta.bold"])] := by decide
+
+/-- converse direction on the Greek witness: mark/mkmk under grek without kern, while kerning acts on the rule
+alternates of Greek letters, is a failure; with kern present it holds. -/
+def dsWitness : DsIn :=
+  { rules := [[("alpha", "alpha.bold"), ("beta", "beta.bold")], [("alpha", "alpha.cond"), ("beta", "beta.cond")]]
+    own := [("a", ["latn"]), ("b", ["latn"]), ("alpha", ["grek"]), ("beta", ["grek"]), ("alpha.bold", []),
+            ("beta.bold", []), ("alpha.cond", []), ("beta.cond", []), ("acutecomb", ["*"])]
+    pairs := [("a", "b"), ("alpha.bold", "beta.bold")] }
+
+example : kernActsOn dsWitness "grek" = true ∧ kernActsOn dsWitness "latn" = true ∧ kernActsOn dsWitness "DFLT" = false ∧
+    holdsDs dsWitness [("DFLT", "dflt", "kern"), ("DFLT", "dflt", "mark"), ("grek", "dflt", "mark"),
+                       ("latn", "dflt", "kern"), ("latn", "dflt", "mark")] = false ∧
+    holdsDs dsWitness [("DFLT", "dflt", "kern"), ("DFLT", "dflt", "mark"), ("grek", "dflt", "kern"), ("grek", "dflt", "mark"),
+                       ("latn", "dflt", "kern"), ("latn", "dflt", "mark")] = true := by decide
+
 end Ufo2ft.C20
